@@ -6,7 +6,7 @@ REG = dict(
         "phi(-x)=phi(x) (proved for the real Gaussian), sqrt(k^2 v)=k sqrt v (proved for Real.sqrt); PhiInv(1-q)=-PhiInv(q) "
         "of the black box scipy ndtri (normal regime of ppf only) is a hypothesis",
         "ppf reflection is proved under `NoTie` (no bisection midpoint has cdf(mid) = q exactly); at exact float ties the "
-        "code is NOT mirror-symmetric (finding F8); decisions within 1e-13 of a tie are rounding and are skipped",
+        "code is NOT mirror-symmetric (known finding C09-noisy-ppf-reflection-exact-bisection-tie); decisions within 1e-13 of a tie are rounding and are skipped",
         "the integrated average curve is related at every refinement level i; the stopping index is decided in floating "
         "point by the code",
         "oracle used to attribute a deviating integrated curve: adaptive Gauss-Legendre quadrature of the class's own cdf; the "
@@ -33,6 +33,6 @@ TEXT = dict(
           "Correspondence: paired evaluations of the real code on mirrored / rescaled instances at exactly the property's "
           "tolerances, every regime and both sides of every switch point.",
     note="Findings on the unchanged tree: F4 (integrated noisy average curve is not location-equivariant: premature "
-         "convergence when 0 lies inside the integration range) and F8 (ppf/quantile curve: at an exact float tie "
+         "convergence when 0 lies inside the integration range) and C09-noisy-ppf-reflection-exact-bisection-tie (ppf/quantile curve: at an exact float tie "
          "cdf(mid)==q the `<` moves `hi` in both mirrored instances; results differ by 2^-30 of the bracket, > 1e-12).",
 )
